@@ -24,6 +24,7 @@ type c13Case struct {
 	Prog    *program `json:"program,omitempty"`
 	Body    []int    `json:"body,omitempty"` // loop "body": straight-line bytes, followed by JP start
 	R       int      `json:"r"`              // initial refresh register
+	Pending string   `json:"pending,omitempty"` // "int": a maskable request stays pending and masked (IFF1 = 0) for the whole run
 	PC      uint16   `json:"pc"`
 	Instant string   `json:"instant"` // pre | hook | timer | timeout | never
 	N       int      `json:"n"`       // hook: access count; timer/timeout: microseconds
@@ -75,6 +76,13 @@ func (r *c13Rig) load(c *c13Case) {
 	case "body":
 		put(toBytes(c.Body)...)
 		put(0xC3, uint8(c.PC), uint8(c.PC>>8))
+	case "prefixes": // nothing but DD / FD bytes in the whole address space
+		for i := range r.base {
+			r.base[i] = 0xDD
+			if (i*7+c.R)%3 == 0 {
+				r.base[i] = 0xFD
+			}
+		}
 	}
 }
 
@@ -92,6 +100,10 @@ func (r *c13Rig) initCPU(c *c13Case, cpu *z80.CPU, m *progMachine) {
 	cpu.HL.SetU16(0x4000)
 	cpu.DE.SetU16(0x5000)
 	cpu.IR.Lo = uint8(c.R)
+	if c.Pending == "int" {
+		cpu.IFF1, cpu.IFF2, cpu.IM = false, false, 1
+		cpu.Interrupt = z80.IM1Interrupt()
+	}
 }
 
 type c13Outcome struct {
@@ -330,7 +342,10 @@ func TestC13(t *testing.T) {
 				c.Prog = genProgram(t, 8)
 				c.Instant = rapid.SampledFrom([]string{"pre", "hook", "timer", "timeout", "never", "never"}).Draw(t, "instant")
 			} else {
-				c.Loop = rapid.SampledFrom([]string{"jr", "jp", "nops", "ldir", "otir", "djnz", "jpix", "ldra", "ldirix", "body", "body"}).Draw(t, "loop")
+				c.Loop = rapid.SampledFrom([]string{"jr", "jp", "nops", "ldir", "otir", "djnz", "jpix", "ldra", "ldirix", "body", "body", "prefixes"}).Draw(t, "loop")
+				if rapid.IntRange(0, 3).Draw(t, "pending") == 0 && c.Loop != "body" {
+					c.Pending = "int"
+				}
 				c.PC = rapid.SampledFrom([]uint16{0x0100, 0xFFFE, 0x0000, 0x7000}).Draw(t, "pc")
 				c.R = int(rapid.OneOf(rapid.SampledFrom([]uint8{0, 1, 0x7F, 0x80, 0xFF}), rapid.Uint8()).Draw(t, "r"))
 				if c.Loop == "body" {
